@@ -185,6 +185,21 @@ theorem c06_gen_Roster_Search_eq (l : List Server) (sid : Nat) :
   rw [← e]
   exact this
 
+/-- **the "server not in the roster" test of `MakeTreeFromList` as the code has it** (`idx < 0` on the first result of
+`ro.Search`): it fires exactly when the model's `search` finds nothing — the model's `Err.unknownServer` branch of
+`makeForest` is taken on the same inputs as the code's `didn't find node in roster` return.  (A changed sentinel of
+`Roster.Search`, or a test `idx <= 0` that would refuse the roster's first server, breaks this.) -/
+theorem c06_gen_MakeTreeFromList_notFound_iff (l : List Server) (sid : Nat) :
+    (Gen.C06.Roster_Search (rosterOf l) sid).map (fun r => Gen.C06.MakeTreeFromList_notFound r.1) =
+      some (search l sid).isNone := by
+  rw [c06_gen_Roster_Search_eq]
+  cases search l sid with
+  | none => simp [searchResult, Gen.C06.MakeTreeFromList_notFound]
+  | some p =>
+    obtain ⟨i, e⟩ := p
+    simp only [searchResult, Gen.C06.MakeTreeFromList_notFound, Option.map_some, Option.isNone_some]
+    congr 1
+
 /-- **`Roster.Get` as translated** (after /repo db213ab; before, the guard was `idx > len(ro.List)` and
 `Get(len(ro.List))` was an index panic although the function promises nil on an index error — probe
 `notes/probes/onet_roster_get_at_len_probe_test.go.txt`): it never panics; `nil` for an index outside the list, the
